@@ -1,4 +1,5 @@
 import Hive.Proofs.DaemonRun
+import Hive.Proofs.DaemonProgress
 import Hive.Gen.C20_Skel
 /-!
 # C20 — the daemon stops background workers in descending shutdown order
@@ -64,6 +65,63 @@ theorem C20_statement :
   exact ⟨C20_order ts ts' s hr, C20_equal_order_together ts ts' s hr, C20_wait_returns_after_all ts ts' s hr,
     C20_run_returns_after_all ts ts' s hr, C20_no_add_after_shutdown ts ts' s hr,
     C20_running_name_refused ts ts' s hr⟩
+
+/-! ## Progress: the waits of the shutdown and of `Run` are never waits for nobody
+
+The six clauses above are safety statements.  The statement also says that `ShutdownAndWait` and `Run` *return*
+after the workers returned; in an interleaving model that is "no reachable configuration in which they are blocked
+without a reason that can go away". -/
+
+/-- **Shutdown progress.**  In every reachable state in which a shutdown has begun (`stopped` is set) and is not
+finished, either the next step of the `stopOnce` body is enabled, or it waits on the WaitGroup of an order `p` for
+which some *started worker of order `p`* has not yet called `Done` — and the goroutine of that worker has an enabled
+step.  So the shutdown can only be kept waiting by a handler that has not returned; once every handler has
+returned (`wg.Done` being the worker goroutine's next step) it runs to completion. -/
+theorem C20_shutdown_progress (ts ts' : List Th) (s : St) (hr : Reach (sys true true) (init, ts) (s, ts'))
+    (hst : s.stopped = true) (hnd : s.sd ≠ .done) :
+    sdBody s ≠ [] ∨
+      ∃ p i, ((∃ todo, s.sd = .waitMid p todo) ∨ s.sd = .waitLast p) ∧ i < s.n ∧ (s.objs i).counted = true ∧
+        (s.objs i).order = p ∧ step true true s (.wk i) ≠ [] := by
+  by_cases hb : sdBody s = []
+  · right
+    have hA := (inv_reach hr).1
+    obtain ⟨p, hw, hsd⟩ := sdBody_blocked hA hst hnd hb
+    obtain ⟨i, hi, hc, ho, he⟩ := wait_has_live_worker hA p hw
+    refine ⟨p, i, hsd, hi, hc, ho, ?_⟩
+    simp only [step]
+    intro h
+    exact he (List.map_eq_nil_iff.mp h)
+  · exact Or.inl hb
+
+/-- **Run progress.**  In every reachable state a `Run` call that is blocked in its wait loop is waiting for a
+started worker that has not been cleaned up yet, whose goroutine has an enabled step. -/
+theorem C20_run_progress (ts ts' : List Th) (s : St) (hr : Reach (sys true true) (init, ts) (s, ts')) (c : Nat)
+    (hb : step true true s (.runner c .started) = []) :
+    ∃ i, i < s.n ∧ busy s i = true ∧ step true true s (.wk i) ≠ [] := by
+  have hC := (inv2_reach hr).2.1
+  have hw : s.rw ≠ 0 := by
+    intro h0
+    simp [step, h0] at hb
+  obtain ⟨i, hi, hbz, he⟩ := run_wait_has_live_worker hC hw
+  refine ⟨i, hi, hbz, ?_⟩
+  simp only [step]
+  intro h
+  exact he (List.map_eq_nil_iff.mp h)
+
+/-- **No deadlock inside the daemon.**  A reachable configuration whose pool contains the goroutine of every worker
+object is never stuck while a shutdown has begun and is not finished and the thread running the `stopOnce` body is in
+the pool: some thread can move. -/
+theorem C20_shutdown_not_stuck (ts ts' : List Th) (s : St) (hr : Reach (sys true true) (init, ts) (s, ts'))
+    (hpool : ∀ i, i < s.n → Th.wk i ∈ ts') (c : Nat) (hbody : Th.sd c .body ∈ ts')
+    (hst : s.stopped = true) (hnd : s.sd ≠ .done) : ¬ Stuck (sys true true) (s, ts') := by
+  intro hstuck
+  rcases C20_shutdown_progress ts ts' s hr hst hnd with h | ⟨p, i, _, hi, _, _, he⟩
+  · have := hstuck _ hbody
+    simp only [sys, step] at this
+    cases hsd : s.sd <;> simp only [hsd] at this hnd <;> first
+      | exact absurd rfl hnd
+      | exact h (List.map_eq_nil_iff.mp this)
+  · exact he (hstuck _ (hpool i hi))
 
 /-! ## witnesses about the code before its repairs (concrete schedules; they were replayed on the real code
 of that time by `harness/c20`, see design/C20.md) -/
@@ -159,6 +217,14 @@ example :
 example : Reach (sys true true) (init, demoPool) (runSched (sys true true) (init, demoPool) demoSchedule) :=
   runSched_reach _ _ _
 
+/-- The hypotheses of the progress theorems are satisfiable: after the first 18 steps of `demoSchedule` the shutdown
+is blocked in `waitMid 5` (both order-5 workers cancelled, none has returned), worker 0 is counted and enabled. -/
+example :
+    let s := (runSched (sys true true) (init, demoPool) (demoSchedule.take 18)).1
+    s.stopped = true ∧ s.sd = .waitMid 5 [2] ∧ sdBody s = [] ∧ (s.objs 0).counted = true ∧
+      step true true s (.wk 0) ≠ [] := by
+  decide +kernel
+
 /-! ## Regenerated tie: the synchronisation skeletons the protocol model was written against
 
 `Hive/Gen/C20_Skel.lean` is regenerated from `app/daemon/daemon.go` on every run (`harness/tools/extract-sync`).
@@ -214,5 +280,30 @@ theorem C20_skeleton_Shutdown : skel_OrderedDaemon_Shutdown = [
 
 theorem C20_skeleton_ShutdownAndWait : skel_OrderedDaemon_ShutdownAndWait = [
   "call d.stopOnce.Do"] := by decide
+
+theorem C20_skeleton_GetRunningBackgroundWorkers : skel_OrderedDaemon_GetRunningBackgroundWorkers = [
+  "rlock d.lock", "defer runlock d.lock", "for{", "call d.workers[name].running.Load", "if{", "continue", 
+  "}if", "}for", "for{", "}for", "return"] := by decide
+
+theorem C20_skeleton_IsStopped : skel_OrderedDaemon_IsStopped = ["call d.stopped.Load", "return"] := by decide
+
+theorem C20_skeleton_IsRunning : skel_OrderedDaemon_IsRunning = ["call d.running.Load", "return"] := by decide
+
+theorem C20_skeleton_ContextStopped : skel_OrderedDaemon_ContextStopped = ["return"] := by decide
+
+/-- Type facts: the fields of the daemon and of a worker the model's state mirrors — two atomics, ONE `stopOnce`, the
+`workers` map and the `shutdownOrderWorker` slice, one `*sync.WaitGroup` per `int` order, the `runningWorkers` counter
+(`int`) with its condition variable, one lock; a worker has its own context / cancel function, an atomic `running`
+flag and an `int` shutdown order.  A second lock, a counter of another width, a non-atomic flag or a value-typed
+WaitGroup map break this obligation although no function body changed. -/
+theorem C20_skeleton_type_OrderedDaemon : skel_type_OrderedDaemon =
+    ["struct", "running atomic.Bool", "stopped atomic.Bool", "stoppedCtx context.Context",
+     "stoppedCtxCancel context.CancelFunc", "stopOnce sync.Once", "workers map[string]*worker",
+     "shutdownOrderWorker []string", "wgPerSameShutdownOrder map[int]*sync.WaitGroup", "runningWorkers int",
+     "workersDone *sync.Cond", "lock syncutils.RWMutex", "logger log.Logger"] := by decide
+
+theorem C20_skeleton_type_worker : skel_type_worker =
+    ["struct", "ctx context.Context", "ctxCancel context.CancelFunc", "handler WorkerFunc", "running atomic.Bool",
+     "shutdownOrder int"] := by decide
 
 end Hive.Daemon
